@@ -28,8 +28,8 @@ type c14RespCase struct {
 const c14RuleState = "at least one injected fault (or a rejected / tainted event placed in the answer) and at least one fault-free event of the answer whose auth events include a faulted event"
 
 func init() {
-	vfRapid("C14/state-response", c14RuleState, 260, 12000, 8, c14GenStateResponse, c14CheckStateResponse)
-	vfRapid("C14/send-join", c14RuleState, 200, 8000, 8, c14GenSendJoin, c14CheckSendJoin)
+	vfRapid("C14/state-response", c14RuleState, 700, 16000, 8, c14GenStateResponse, c14CheckStateResponse)
+	vfRapid("C14/send-join", c14RuleState, 500, 12000, 8, c14GenSendJoin, c14CheckSendJoin)
 }
 
 var c14RespFaultKinds = []string{
@@ -43,7 +43,7 @@ func c14GenStateResponse(t *rapid.T) c14RespCase { return c14GenResp(t, false) }
 func c14GenSendJoin(t *rapid.T) c14RespCase      { return c14GenResp(t, true) }
 
 func c14GenResp(t *rapid.T, sendJoin bool) c14RespCase {
-	w := c14GenWorld(t, 8, 22)
+	w := c14GenWorld(t, 5, 22)
 	r := w.r
 	c := c14RespCase{Version: r.Version, Join: -1, JoinOmit: -1}
 	var state map[string]int
@@ -372,7 +372,7 @@ func c14CompareResp(room *c14Room, lists [2][]c14Item, script c14Script, longPar
 		}
 		// an event that came back although the model drops it
 		for i, it := range lists[li] {
-			if it.Class != c14ClassUnparsed && cnt[it.ID] < 0 && !v.Keep[li][i] {
+			if it.ID != "" && cnt[it.ID] < 0 && !v.Keep[li][i] {
 				why := v.Why[li][i]
 				switch {
 				case why == "signature":
